@@ -262,6 +262,15 @@ def doDecs (flag k hx : String) : String :=
     | .outOfFuel => "hang"
   | _, _, _ => "bad-input"
 
+/-- `decn <host> <n> <hex>`: n Decode calls on one Decoder, each answered `ok <graph>` | `err` | `nil`, joined by ` ## ` -/
+def doDecn (flag k hx : String) : String :=
+  match unhexB hx, decCfg false flag false, decCfg false flag true, k.toNat? with
+  | some bs, some cfg, some cfgU, some n =>
+    let show1 (os : List Outcome) : String := " ## ".intercalate (os.map showOutcome)
+    let strict := show1 (decodeCalls cfg n {} bs)
+    if strict == show1 (decodeCalls cfgU n {} bs) then strict else "either multi"
+  | _, _, _, _ => "bad-input"
+
 def step (line : String) : String :=
   match line.splitOn " " with
   | ["enc", f, g] => doEnc false f g
@@ -270,6 +279,7 @@ def step (line : String) : String :=
   | ["decold", f, h] => doDec true f h
   | ["encs", f, g] => doEncs f g
   | ["decs", f, k, h] => doDecs f k h
+  | ["decn", f, k, h] => doDecn f k h
   | _ => "bad-op"
 
 def main : IO Unit := mainLoop step
